@@ -64,7 +64,15 @@ def generate(rng, tier, rep):
                 opts += ['--ignore-new-thread', '^ign-']
             if rng.random() < 0.2:
                 opts += ['--ignore-new-thread', 'worker-1$']
-        cases.append({'layers': [], 'tests': tests, 'options': opts})
+        c = {'layers': [], 'tests': tests, 'options': opts}
+        if rng.random() < 0.2:
+            # all tests in a layer whose testSetUp hook replaces a worker thread before every test
+            c['layers'] = [{'name': 'La', 'bases': [], 'kind': 'instance', 'hooks': {'testSetUp': ['thread_restart']}}]
+            for T in tests:
+                T['layer'] = 0
+            c['hook_threads'] = True
+            rep.count('layer hook restarts a worker thread before every test')
+        cases.append(c)
         rep.count('tests=%d' % len(tests))
         rep.count('thread names repeat' if samenames else 'thread names unique')
         rep.count('threads=%d' % count)
@@ -90,11 +98,19 @@ def history(c, o):
     """Rebuild the thread history from the world and the idents it logged.
     Returns (events, {test: {OS ident: identity}}) where the map covers the threads alive at the end of that test."""
     recs = [r for r in o['trace'] if r[1] == 'thread']
+    hrecs = [r for r in o['trace'] if r[1] == 'hookthread']
     k = 0                      # running index of started threads; identity = k + 10
     hist = []
     alive = {}                 # identity -> OS ident
     by_test = {}
     for t, T in enumerate(c['tests']):
+        if c.get('hook_threads'):
+            # the layer's per-test hook replaces its worker thread before the test begins: the old one ends, the new one exists
+            # when the test starts and is nobody's leak
+            if t > 0:
+                hist.append('TFinish %d' % (1000 + t - 1))
+            hr = hrecs[t] if t < len(hrecs) else None
+            hist.append(('TSTART', 1000 + t, hr[3][1] if hr else 0, True, False, ignored('layer-worker', c['options'])))
         hist.append('TBegin %d' % t)
         for s in T.get('threads', []):
             for rel in s.get('release', []):
